@@ -73,6 +73,7 @@ pub enum InternalEvent {
     Process {
         body: Value,
     },
+    Initialized,
     Exited {
         code: i32,
     },
